@@ -194,7 +194,7 @@ PreNext == pre' = IF obs.quiet THEN obs ELSE pre
 -----------------------------------------------------------------------------
 (* initial state *)
 
-NoLast == [op |-> "none", p |-> 0, j |-> 0, t |-> 0, o |-> "", res |-> "ok", err |-> "", new |-> 0, forced |-> FALSE]
+NoLast == [op |-> "none", p |-> 0, j |-> 0, t |-> 0, o |-> "", v |-> 0, bad |-> "none", res |-> "ok", err |-> "", new |-> 0, forced |-> FALSE]
 NoEv == [k |-> "Reset", j |-> 0, t |-> 0, o |-> ""]
 
 Init ==
@@ -240,7 +240,7 @@ Schedule(p, bad) ==
          n == Len(job) + 1
      IN
      IF act \in {"shutdown", "undefined", "noqueue", "queuefull"}
-     THEN /\ last' = KeepForced([NoLast EXCEPT !.op = "schedule", !.p = p, !.res = "err", !.err = act])
+     THEN /\ last' = KeepForced([NoLast EXCEPT !.op = "schedule", !.p = p, !.bad = bad, !.res = "err", !.err = act])
           /\ UNCHANGED <<job, stage, sched, running, rctx, waitList, runs, stop, ack, store, logs, persist>>
      ELSE /\ n <= MaxJobs
           /\ LET v == CurDef(p)
@@ -266,7 +266,7 @@ Schedule(p, bad) ==
                 /\ store' = Append(store, [present |-> FALSE])
                 /\ logs' = Append(logs, FALSE)
                 /\ ReqPersist
-                /\ last' = [NoLast EXCEPT !.op = "schedule", !.p = p, !.new = n]
+                /\ last' = [NoLast EXCEPT !.op = "schedule", !.p = p, !.bad = bad, !.new = n]
   /\ OpEv(0, 0, "")
   /\ Step(HStep("schedule", p, 0, 0, "", 0, bad))
   /\ PreNext
@@ -340,7 +340,9 @@ CancelDeliver(j) ==
                   THEN [job EXCEPT ![j].rep = [t \in DOMAIN @ |-> IF t \in R THEN [@[t] EXCEPT !.canceled = TRUE, !.status = "canceled"] ELSE @[t]]]
                   ELSE job
         \* the stage goroutines assign lastErr in an order that is a race when a task failed in the same instant
-        /\ \E le \in (IF hard THEN (IF sched[j].lastErr = "exit" THEN {"exit", "canceled"} ELSE {"canceled"}) ELSE {sched[j].lastErr}) :
+        \* (only then: the failing task's goroutine and the interrupted tasks' goroutines all assign lastErr now)
+        /\ \E le \in (IF hard THEN (IF sched[j].lastErr = "exit" /\ last.op = "finish" /\ last.j = j THEN {"exit", "canceled"} ELSE {"canceled"})
+                                ELSE {sched[j].lastErr}) :
               sched' = [sched EXCEPT ![j].cancelled = TRUE, ![j].lastErr = le]
         /\ runs' = [runs EXCEPT ![j] = [t \in DOMAIN @ |-> IF t \in R THEN [@[t] EXCEPT !.outcome = "canceled", !.execAtEnd = job[j].present /\ IsRunning(job, j), !.goneAtEnd = ~job[j].present] ELSE @[t]]]
         /\ stop' = [stop EXCEPT ![j] = IF @.n > 0 THEN [@ EXCEPT !.n = 2]
@@ -499,7 +501,7 @@ Reload(p, v) ==
   /\ cfgv' = [cfgv EXCEPT ![p] = v]
   /\ epoch' = [epoch EXCEPT ![p] = @ + 1]
   /\ OpEv(0, 0, "")
-  /\ last' = KeepForced([NoLast EXCEPT !.op = "reload", !.p = p])
+  /\ last' = KeepForced([NoLast EXCEPT !.op = "reload", !.p = p, !.v = v])
   /\ Step(HStep("reload", p, 0, 0, "", v, "none"))
   /\ PreNext
   /\ UNCHANGED <<job, stage, sched, running, rctx, cancelPending, waitList, shut, store, logs, persist, nops, nticks, runs, stop, ack, clock>>
@@ -634,8 +636,10 @@ Restart ==
   /\ Step(HStep("restart", 0, 0, 0, "", 0, "none"))
   \* the tasks that were executing died with the old process
   /\ runs' = [j \in Jobs |-> [t \in DOMAIN runs[j] |-> IF t \in running[j] THEN [runs[j][t] EXCEPT !.outcome = "lost", !.execAtEnd = TRUE] ELSE runs[j][t]]]
+  \* stops delivered by the old process do not belong to a shutdown of the new runner
+  /\ stop' = [j \in Jobs |-> [stop[j] EXCEPT !.duringShut = FALSE]]
   /\ PreNext
-  /\ UNCHANGED <<cfgv, epoch, store, logs, nreloads, nticks, stop, ack, clock>>
+  /\ UNCHANGED <<cfgv, epoch, store, logs, nreloads, nticks, ack, clock>>
 
 -----------------------------------------------------------------------------
 
@@ -654,6 +658,11 @@ Client == \/ \E p \in P : \E b \in BadKinds : Schedule(p, b)
 Next == (Internal \/ Client) /\ obs' = IF Gen THEN obs ELSE ObsSt'
 
 Spec == Init /\ [][Next]_vars
+
+\* the part of the state that decides what can happen next (history variables and the bounding counters left out):
+\* the quotient of the reachable graph by this projection is what the edge-covering scripts are planned on
+CoreState == <<cfgv, epoch, job, stage, sched, running, rctx, cancelPending, waitList, shut, store, logs, persist>>
+IsInitCore == job = <<>> /\ shut = "no" /\ \A p \in P : epoch[p] = 0
 
 \* compact view of a state for TLC error traces (ALIAS in the cfg files)
 Alias == [ev |-> ev.k, op |-> ToString(<<last.op, last.p, last.j, last.t, last.o, last.res>>), cfgv |-> cfgv, shut |-> shut, persist |-> ToString(persist),
